@@ -3,7 +3,8 @@ import QV.C18.Model
 import QV.C18.Spec
 /-!
 Driver side of the C18 correspondence check.  The implementation ran in a child process; its outcome is
-`(ok N)` | `(recursive instr)` | `(error)` | `(crash "msg")` | `(abort "status")` | `(timeout)`.  The model
+`(ok N S)` | `(recursive instr S)` | `(error S)` | `(crash "msg")` | `(abort "status")` | `(timeout)`
+(`S` = `same` iff the sibling entry points agree).  The model
 (`QV.C17.expandCalibrations`, oracles of `QV/C17/Drv.lean`) runs with `FUEL18` levels of recursion.
 
 Classes compared:  ok N ↔ ok with body length N;  recursive i ↔ recursiveCalibration i;
@@ -15,11 +16,11 @@ open QV QV.Ast QV.AstWire QV.C17 QV.C17.Drv QV.C18
 
 /-- levels of recursion given to the model.  On a parameter-growing input every level re-simplifies a
 parameter whose size grows with the depth (C12's model of the simplifier is the expensive part: measured
-0.13 s at 100 levels, 0.8 s at 200, about 50 s at 1000), so the fuel is kept at 150: an order of magnitude
+0.13 s at 100 levels, 0.8 s at 200, about 50 s at 1000), so the fuel is kept at 100: several times
 above the deepest TERMINATING expansion the generators can build (a chain through distinct (name, literal,
-qubit) combinations of a handful of calibrations, < 20), far below the depth at which the implementation's
-256 KiB worker stack overflows. -/
-def FUEL18 : Nat := 150
+qubit) combinations of a handful of calibrations, < 20; the corpus has chains of 30), far below the depth at which the implementation's
+128 KiB worker stack overflows. -/
+def FUEL18 : Nat := 100
 
 def implClass (out : Sexp) : String :=
   match out with
@@ -36,8 +37,8 @@ def handleProg (is : List Instruction) (out : Sexp) : CaseResult :=
   let mClass := classOf m
   let ic := implClass out
   let agree : Bool := match m, out with
-    | .ok q, .list [.atom "ok", n] => n == encodeNat q.instructions.length
-    | .recursiveCalibration i, .list [.atom "recursive", j] => encodeInstruction i == j
+    | .ok q, .list [.atom "ok", n, .atom "same"] => n == encodeNat q.instructions.length
+    | .recursiveCalibration i, .list [.atom "recursive", j, .atom "same"] => encodeInstruction i == j
     | .outOfFuel, _ => ic == "abort" || ic == "timeout" || ic == "crash"
     | _, _ => false
   -- "some instruction would be expanded again while it is already being expanded", searched along every
@@ -45,7 +46,13 @@ def handleProg (is : List Instruction) (out : Sexp) : CaseResult :=
   let revisit : Bool := mClass != .outOfFuel &&
     p.instructions.any (revisitB env codeSubst p.cals FUEL18 [])
   -- the statement on the implementation's outcome: it returned, and it reported the error iff a revisit exists
-  let returned := ic == "ok" || ic == "recursive"
+  -- the sibling entry points (with source map; instruction by instruction through `Calibrations::expand`) ended
+  -- in the same class
+  let siblings := match out with
+    | .list [.atom "ok", _, s] => s == .atom "same"
+    | .list [.atom "recursive", _, s] => s == .atom "same"
+    | _ => true
+  let returned := (ic == "ok" || ic == "recursive") && siblings
   let specOk := returned && (mClass == .outOfFuel || ((ic == "recursive") == revisit))
   -- known finding: the implementation did not return, the model is out of fuel at FUEL18 levels and reports
   -- no recursive calibration
@@ -57,6 +64,7 @@ def handleProg (is : List Instruction) (out : Sexp) : CaseResult :=
              "model-" ++ (match mClass with | .ok => "ok" | .recursiveCalibration => "recursive" | .outOfFuel => "outOfFuel"),
              s!"depth{min maxDepth 8}"] ++ calTags p ++
             (if revisit then ["revisit"] else []) ++
+            (if siblings then [] else ["FAIL-entry-points-differ"]) ++
             (if kf then ["kf:C18/growing-parameter"] else []),
     detail := s!"model={repr mClass} impl={out}" }
 
